@@ -658,3 +658,340 @@ func ruleFreshIndexingContext(c *Ctx, rule string) {
 	c.CallSites(n)
 	c.Floor(rule, 3)
 }
+
+// reachesStatic walks the static callees of fn inside its package (depth-bounded) and returns the first call
+// for which hit answers a non-empty description.
+func reachesStatic(fn *ssa.Function, depth int, hit func(call ssa.CallInstruction) string) (string, ssa.CallInstruction, string) {
+	seen := map[*ssa.Function]bool{}
+	var res string
+	var at ssa.CallInstruction
+	var via string
+	var walk func(f *ssa.Function, d int, v string)
+	walk = func(f *ssa.Function, d int, v string) {
+		if seen[f] || d > depth || res != "" {
+			return
+		}
+		seen[f] = true
+		for _, g := range allFuncsWithAnon(f) {
+			for _, call := range callsIn(g) {
+				if res != "" {
+					return
+				}
+				if h := hit(call); h != "" {
+					res, at, via = h, call, v
+					return
+				}
+				if sc := call.Common().StaticCallee(); sc != nil && sc.Pkg == fn.Pkg && len(sc.Blocks) > 0 {
+					walk(sc, d+1, v+" via "+FnName(sc))
+				}
+			}
+		}
+	}
+	walk(fn, 0, "")
+	return res, at, via
+}
+
+// ruleReadIndexNoCreate (READNOCREATE): the read side of an index (the methods of ReadIndex / SetReadIndex:
+// Read, ReadKeys, OpenValueCursor, OpenKeyCursor) never reaches a bbolt write. A lookup that goes through the
+// get-or-create helper of the write side leaves an empty bucket behind for every value that was asked for in a
+// writable transaction, and the key cursor then enumerates keys no entity has.
+func ruleReadIndexNoCreate(c *Ctx, rule string) {
+	p := c.P
+	names := map[string]bool{"Read": true, "ReadKeys": true, "OpenValueCursor": true, "OpenKeyCursor": true}
+	n := 0
+	for _, fn := range c.prodFuncs("boltz") {
+		if fn.Signature.Recv() == nil || !names[fn.Name()] {
+			continue
+		}
+		nm := namedOf(fn.Signature.Recv().Type())
+		if nm == nil || !strings.HasSuffix(strings.ToLower(nm.Obj().Name()), "index") {
+			continue
+		}
+		n++
+		c.Analysed(FnName(fn))
+		what, at, via := reachesStatic(fn, 5, func(call ssa.CallInstruction) string {
+			cal, _ := calleeOf(call.Common())
+			if cal == nil || cal.Pkg() == nil || !strings.HasSuffix(cal.Pkg().Path(), "bbolt") {
+				return ""
+			}
+			switch cal.Name() {
+			case "CreateBucket", "CreateBucketIfNotExists", "Put", "Delete", "DeleteBucket":
+				return "bbolt " + cal.Name()
+			}
+			return ""
+		})
+		pos := p.Pos(fn.Pos())
+		if at != nil {
+			pos = p.Pos(at.Pos())
+		}
+		c.Check(what == "", rule, FnName(fn), pos, "the read side of the index reaches no bbolt write", "a read method of the index reaches "+what+via+": looking a value up in a writable transaction creates (or changes) index buckets — an empty bucket is left behind for every value asked for, and the key cursor enumerates keys no entity has")
+	}
+	c.CallSites(n)
+	c.Floor(rule, 4)
+}
+
+// ruleCursorValidity (VALIDNIL / VALIDSRC): a cursor's IsValid distinguishes "no element" from "the element is
+// the empty string" — the position it tests is compared with nil, never measured with len(), and the field it
+// tests is never filled from the decoded value GetTypeAndValue answers (nil for a tag-only key, i.e. for "").
+func ruleCursorValidity(c *Ctx, ruleNil, ruleSrc string, pkgs ...string) {
+	p := c.P
+	tested := map[*types.Var]*ssa.Function{}
+	n := 0
+	for _, fn := range c.prodFuncs(pkgs...) {
+		if fn.Name() != "IsValid" || fn.Signature.Recv() == nil || fn.Signature.Params().Len() != 0 {
+			continue
+		}
+		// only fields holding bytes
+		usesLen := ssa.Instruction(nil)
+		any := false
+		for _, b := range fn.Blocks {
+			for _, in := range b.Instrs {
+				switch x := in.(type) {
+				case *ssa.Call:
+					if bi, isB := x.Call.Value.(*ssa.Builtin); isB && bi.Name() == "len" && len(x.Call.Args) == 1 {
+						if f, _ := loadedField(x.Call.Args[0]); f != nil {
+							if sl, isSl := f.Type().Underlying().(*types.Slice); isSl && types.Identical(sl.Elem(), types.Typ[types.Byte]) {
+								usesLen = x
+								any = true
+							}
+						}
+					}
+				case *ssa.BinOp:
+					for _, o := range []ssa.Value{x.X, x.Y} {
+						if f, _ := loadedField(o); f != nil {
+							if sl, isSl := f.Type().Underlying().(*types.Slice); isSl && types.Identical(sl.Elem(), types.Typ[types.Byte]) {
+								tested[f] = fn
+								any = true
+							}
+						}
+					}
+				}
+			}
+		}
+		if !any {
+			continue
+		}
+		n++
+		c.Analysed(FnName(fn))
+		pos := p.Pos(fn.Pos())
+		if usesLen != nil {
+			pos = p.Pos(usesLen.Pos())
+		}
+		c.Check(usesLen == nil, ruleNil, FnName(fn), pos, "validity compares the position with nil", "validity is decided by the length of the position: an element that is the empty string (a tag-only key, stripped to an empty non-nil slice) reads as the end of the set — and it sorts first, so the whole set reads as empty")
+	}
+	c.Floor(ruleNil, 3)
+	// stores into the tested fields
+	m := 0
+	for _, fn := range c.prodFuncs(pkgs...) {
+		for _, b := range fn.Blocks {
+			for _, in := range b.Instrs {
+				st, ok := in.(*ssa.Store)
+				if !ok {
+					continue
+				}
+				f, _ := fieldOfAddr(st.Addr)
+				if f == nil {
+					continue
+				}
+				var isv *ssa.Function
+				for tf, tfn := range tested {
+					if sameVar(tf, f) {
+						isv = tfn
+					}
+				}
+				if isv == nil {
+					continue
+				}
+				m++
+				v := st.Val
+				for i := 0; i < 4; i++ {
+					if phi, isPhi := v.(*ssa.Phi); isPhi && len(phi.Edges) > 0 {
+						v = phi.Edges[len(phi.Edges)-1]
+					}
+				}
+				bad := false
+				if ex, isEx := v.(*ssa.Extract); isEx && ex.Index == 1 {
+					if k, isCall := ex.Tuple.(*ssa.Call); isCall {
+						if cal, _ := calleeOf(&k.Call); cal != nil && cal.Name() == "GetTypeAndValue" {
+							bad = true
+						}
+					}
+				}
+				c.Check(!bad, ruleSrc, FnName(fn)+": fills "+f.Name()+" (tested by "+FnName(isv)+")", p.Pos(st.Pos()), "the position tested for validity is not the decoded value", "the field "+FnName(isv)+" compares with nil is filled with the value GetTypeAndValue decoded: that is nil for a tag-only key, so a cursor standing on the element \"\" reports the end of the set — the element sorts first, the set reads as empty, and an index maintained from it loses every value of the entity")
+			}
+		}
+	}
+	c.CallSites(n + m)
+}
+
+// ruleTreeExtremeNilChecked (LLRBNIL): llrb's Max()/Min() answer nil on an empty tree; the answer is not
+// asserted or compared through before it was tested.
+func ruleTreeExtremeNilChecked(c *Ctx, rule string, pkgs ...string) {
+	p := c.P
+	n := 0
+	for _, fn := range c.prodFuncs(pkgs...) {
+		for _, f := range allFuncsWithAnon(fn) {
+			fi := ComputeFacts(f)
+			for _, call := range callsIn(f) {
+				cv, isVal := call.(*ssa.Call)
+				if !isVal {
+					continue
+				}
+				cal, _ := calleeOf(call.Common())
+				if cal == nil || (cal.Name() != "Max" && cal.Name() != "Min") {
+					continue
+				}
+				sig, _ := cal.Type().(*types.Signature)
+				if sig == nil || sig.Recv() == nil || !isLLRB(sig.Recv().Type()) {
+					continue
+				}
+				n++
+				c.Analysed(FnName(fn))
+				var bad ssa.Instruction
+				if refs := cv.Referrers(); refs != nil {
+					for _, r := range *refs {
+						guarded := fi.Holds(r.Block(), Fact{"nonnil", cv, true})
+						switch x := r.(type) {
+						case *ssa.TypeAssert:
+							if !x.CommaOk && !guarded {
+								bad = r
+							}
+						case ssa.CallInstruction:
+							if !guarded {
+								bad = r
+							}
+						}
+					}
+				}
+				why := ""
+				if bad != nil {
+					why = "the answer of " + cal.Name() + "() is used (" + describeInstr(bad) + ") without having been tested: on an empty tree it is nil — a page of size zero (limit 0, or skip+limit 0) asks before anything was inserted, and the query panics"
+				}
+				c.Check(bad == nil, rule, FnName(f)+": "+describeInstr(call), p.Pos(call.Pos()), "tested for nil before use", why)
+			}
+		}
+	}
+	if n == 0 {
+		c.OK(rule, "llrb Max()/Min() answers", "-", "no production function asks an llrb tree for its extreme element")
+	}
+	c.CallSites(n)
+}
+
+// ruleParserEntry (C12.ENTRY): hand-written code enters the generated parser only at the start rule. Any other
+// rule does not demand EOF: what follows the first sentence of that rule is dropped without an error.
+func ruleParserEntry(c *Ctx, rule string) {
+	p := c.P
+	parser := p.Named("zitiql", "ZitiQlParser")
+	if parser == nil {
+		c.Undecided(rule, "zitiql.ZitiQlParser", "-", "anchor not found")
+		return
+	}
+	n := 0
+	for _, fn := range c.prodFuncs("zitiql", "ast", "boltz", "objectz") {
+		for _, f := range allFuncsWithAnon(fn) {
+			for _, call := range callsIn(f) {
+				cal, _ := calleeOf(call.Common())
+				if cal == nil {
+					continue
+				}
+				sig, _ := cal.Type().(*types.Signature)
+				if sig == nil || sig.Recv() == nil || namedOf(sig.Recv().Type()) != parser || sig.Results().Len() != 1 {
+					continue
+				}
+				rn := namedOf(sig.Results().At(0).Type())
+				if rn == nil || !strings.HasSuffix(rn.Obj().Name(), "Context") {
+					continue
+				}
+				n++
+				c.Analysed(FnName(fn))
+				c.Check(cal.Name() == "Start_", rule, FnName(f)+": enters the parser at "+cal.Name(), p.Pos(call.Pos()), "the parser is entered at the start rule, which demands EOF", "hand-written code enters the generated parser at rule "+cal.Name()+" instead of the start rule: that rule does not demand EOF, so whatever follows its first sentence — a connective spelled with a tab or a line feed, a second clause — is dropped without an error")
+			}
+		}
+	}
+	c.CallSites(n)
+	c.Floor(rule, 1)
+}
+
+// ruleSentSliceNotReused (SENTSLICE): a slice sent on a channel belongs to the receiver; the sender does not
+// cut it back to length zero to fill it again (the receiver is still reading the same array).
+func ruleSentSliceNotReused(c *Ctx, rule string, pkgs ...string) {
+	p := c.P
+	n := 0
+	for _, fn := range c.prodFuncs(pkgs...) {
+		for _, f := range allFuncsWithAnon(fn) {
+			for _, b := range f.Blocks {
+				for _, in := range b.Instrs {
+					snd, ok := in.(*ssa.Send)
+					if !ok {
+						continue
+					}
+					if _, isSl := snd.X.Type().Underlying().(*types.Slice); !isSl {
+						continue
+					}
+					n++
+					c.Analysed(FnName(fn))
+					var reuse ssa.Instruction
+					if refs := snd.X.Referrers(); refs != nil {
+						for _, r := range *refs {
+							if sl, isS := r.(*ssa.Slice); isS && sl.X == snd.X {
+								reuse = r
+							}
+						}
+					}
+					why := ""
+					if reuse != nil {
+						why = "the slice sent on the channel is cut back and refilled by the sender (" + p.Pos(reuse.Pos()) + ") while the receiver may still be reading the same array: elements are seen twice and others never — only once a collection is larger than one chunk"
+					}
+					c.Check(reuse == nil, rule, FnName(f)+": send of a slice", p.Pos(snd.Pos()), "the slice handed to the receiver is not reused by the sender", why)
+				}
+			}
+		}
+	}
+	if n == 0 {
+		c.OK(rule, "sends of slices", "-", "no slice is sent on a channel")
+	}
+	c.CallSites(n)
+}
+
+// ruleWrapperForwards (WRAPFORWARD): the system context is a view of the context it wraps — every method other
+// than the two that make it a system context hands the call to the same method of the wrapped context and keeps
+// no state of its own (GetSystemContext makes a new wrapper on every call: state kept in one is lost).
+func ruleWrapperForwards(c *Ctx, rule string) {
+	p := c.P
+	w := p.Named("boltz", "systemMutateContext")
+	if w == nil {
+		c.Undecided(rule, "boltz.systemMutateContext", "-", "anchor not found")
+		return
+	}
+	st, _ := w.Underlying().(*types.Struct)
+	if st != nil && st.NumFields() != 1 {
+		var extra []string
+		for i := 0; i < st.NumFields(); i++ {
+			extra = append(extra, st.Field(i).Name())
+		}
+		c.Bad(rule, "boltz.systemMutateContext: fields "+strings.Join(extra, ", "), p.Pos(w.Obj().Pos()), "the system context keeps state of its own besides the context it wraps: GetSystemContext makes a new wrapper on every call and the database runs the pre-commit actions of the context it was given, so whatever is registered in a wrapper made inside the transaction never runs — a failing pre-commit action no longer aborts the transaction")
+	}
+	n := 0
+	for _, fn := range c.prodFuncs("boltz") {
+		if fn.Signature.Recv() == nil || namedOf(fn.Signature.Recv().Type()) != w {
+			continue
+		}
+		if fn.Name() == "IsSystemContext" || fn.Name() == "GetSystemContext" {
+			continue
+		}
+		n++
+		c.Analysed(FnName(fn))
+		forwards := false
+		for _, call := range callsIn(fn) {
+			cc := call.Common()
+			if cc.IsInvoke() && cc.Method.Name() == fn.Name() {
+				if f, _ := loadedField(cc.Value); f != nil && f.Name() == st.Field(0).Name() {
+					forwards = true
+				}
+			}
+		}
+		c.Check(forwards, rule, FnName(fn), p.Pos(fn.Pos()), "hands the call to the same method of the wrapped context", "does not hand the call to "+fn.Name()+" of the wrapped context: what is registered through a system context made inside the transaction is not seen by the context the database runs")
+	}
+	c.CallSites(n)
+	c.Floor(rule, 5)
+}
